@@ -22,10 +22,12 @@ def penalty(d, order):
     return (D.T @ D).astype(np.float32)
 
 
-def build_distreg(d, order, a, b):
+def build_distreg(d, order, a, b, int_penalty=False):
     xs = np.linspace(-1, 1, 7)
     Bm = jnp.asarray(np.vander(xs, d), jnp.float32)
     K = penalty(d, order) if order > 0 else np.eye(d, dtype=np.float32) * 1.5     # order 0: full rank
+    if int_penalty:      # D'D of an integer difference matrix, kept as an integer array
+        K = np.rint(penalty(d, max(order, 1))).astype(np.int32)
     bld = lsl.DistRegBuilder()
     bld.add_response(YD, tfd.Normal)
     bld.add_predictor("loc", tfb.Identity)
@@ -42,9 +44,9 @@ def _transition(kernel, interface, key, state):
     return out.model_state
 
 
-def tau2_events(rng, d=4, order=2, stale_change=True, nkeys=4, int_current=False):
+def tau2_events(rng, d=4, order=2, stale_change=True, nkeys=4, int_current=False, int_penalty=False):
     a0, b0 = rng.choice([(1.0, 0.5), (2.0, 0.005), (0.5, 1.5)])
-    model, K = build_distreg(d, order, a0, b0)
+    model, K = build_distreg(d, order, a0, b0, int_penalty)
     group = model.groups()["loc_np0"]
     kernel = lsl.tau2_gibbs_kernel(group)
     interface = gs.LieselInterface(model)
@@ -60,7 +62,7 @@ def tau2_events(rng, d=4, order=2, stale_change=True, nkeys=4, int_current=False
             model.vars["loc_np0_a"].value = jnp.float32(a)
             model.vars["loc_np0_b"].value = jnp.float32(b)
             if step == 2:
-                Kcur = (K * np.float32(2.0)).astype(np.float32)
+                Kcur = (K * 2) if int_penalty else (K * np.float32(2.0)).astype(np.float32)
                 model.vars["loc_np0_K"].value = jnp.asarray(Kcur)
         if int_current:
             model.vars["loc_np0_tau2"].value = 2        # an integer-typed current value
@@ -116,6 +118,18 @@ def discrete_models(kind):
         y = lsl.obs(jnp.asarray([0.4, 1.2, 0.9], jnp.float32),
                     lsl.Dist(tfd.Normal, loc=lsl.Calc(lambda z: 0.2 + 1.0 * z, z), scale=0.8), name="y")
         return lsl.GraphBuilder().add(y).build_model(), [0, 1], [0, 1]
+    if kind == "bernoulli_outcomes_reversed":
+        # the caller lists the outcomes explicitly, in an order that is not increasing
+        z = lsl.Var(jnp.asarray(1), lsl.Dist(tfd.Bernoulli, probs=lsl.Value(0.3)), name="z")
+        y = lsl.obs(jnp.asarray([0.4, 1.2, 0.9], jnp.float32),
+                    lsl.Dist(tfd.Normal, loc=lsl.Calc(lambda z: 0.2 + 1.0 * z, z), scale=0.8), name="y")
+        return lsl.GraphBuilder().add(y).build_model(), [1, 0], [1, 0]
+    if kind == "finite_outcomes_unsorted":
+        grid = lsl.Var(jnp.asarray([0.0, 1.0, 2.0]), name="value_grid")
+        z = lsl.Var(jnp.asarray(1.0), lsl.Dist(tfd.FiniteDiscrete, outcomes=grid, probs=jnp.asarray([0.2, 0.3, 0.5])), name="z")
+        y = lsl.obs(jnp.asarray([0.7, 1.2, 0.6], jnp.float32), lsl.Dist(tfd.Normal, loc=lsl.Calc(lambda z: 0.5 * z, z), scale=0.8),
+                    name="y")
+        return lsl.GraphBuilder().add(y).build_model(), [2.0, 0.0, 1.0], [2.0, 0.0, 1.0]
     if kind == "finite_via_named_var":
         grid = lsl.Var(jnp.asarray([-1.0, 0.5, 2.0]), name="value_grid")
         z = lsl.Var(jnp.asarray(0.5), lsl.Dist(tfd.FiniteDiscrete, outcomes=grid, probs=jnp.asarray([0.5, 0.3, 0.2])), name="z")
